@@ -1287,6 +1287,28 @@ fn register_logistic(r: &mut Registry) {
     );
     r.model::<MultiFittedLogisticRegression<f64, usize>>("logistic_multi_model_usize", K, &["MultiFittedLogisticRegression"], Some((Kind::Claim, false)), |p| lgm_build(p, &MULTI_USIZE), lgm_fp, Some(|a, b| a == b));
     r.model::<MultiFittedLogisticRegression<f64, String>>("logistic_multi_model_string", K, &["MultiFittedLogisticRegression"], Some((Kind::Claim, false)), |p| lgm_build(p, &strings(&MULTI_STR)), lgm_fp, Some(|a, b| a == b));
+    // as many features as classes: the coefficient matrix is square, its two axes can be confused
+    r.model::<MultiFittedLogisticRegression<f64, usize>>(
+        "logistic_multi_model_square",
+        K,
+        &["MultiFittedLogisticRegression"],
+        None,
+        |p| {
+            let k = lg_classes(p);
+            let (x, l, _) = lg_data(p, LgData::Mild, k);
+            let k = k.min(x.ncols());
+            let x = x.slice(ndarray::s![.., ..k]).to_owned();
+            let l: Vec<usize> = l.iter().map(|&c| c % k).collect();
+            lgm_params64(LG, k, k).fit(&Dataset::new(x, lab(&l, &MULTI_USIZE))).expect("multi logistic fit")
+        },
+        |m, p, f| {
+            let k = lg_classes(p);
+            let (x, _, q) = lg_data(p, LgData::Mild, k);
+            let k = k.min(x.ncols());
+            fp_lgm64(m, &x.slice(ndarray::s![.., ..k]).to_owned(), &q.slice(ndarray::s![.., ..k]).to_owned(), f)
+        },
+        Some(|a, b| a == b),
+    );
     r.model::<MultiFittedLogisticRegression<f32, String>>(
         "logistic_multi_model_f32",
         K,
